@@ -375,7 +375,9 @@ def c13_cases(u, groups, rng, tier):
         out.append(('(api3 %s)' % name, {'type': name, 'op': 'api3-valid'}))
     for kind in ['nil', 'int', 'string', 'ptrint', 'slice', 'map', 'ptrptr', 'nilptr', 'func']:
         out.append(('(badarg %s)' % kind, {'type': 'Leaf', 'op': 'badarg', 'kind': kind}))
-    return out
+    # rejected registrations must not affect other types: the first-use orders of the history check
+    sess = [x for x in c07_sessions(u, groups, rng.fork('c13orders'), 'quick')['sessions'][-15:]]
+    return {'sessions': sess, 'cases': out}
 
 
 GENERATORS['C12'] = c12_cases
@@ -432,7 +434,8 @@ def c07_sessions(u, groups, rng, tier):
             sess.append(random_op(u, groups, r, pool, bad if r.chance(1, 2) else []))
         sessions.append(sess)
     # first-use orders of mutually nested and poisoned types
-    orders = [['PA', 'PQ'], ['PQ', 'PA', 'PQ'], ['PX', 'PY', 'PZ'], ['PZ', 'PY'], ['PB', 'PQ', 'PA'], ['PY', 'PX', 'PZ', 'PQ'],
+    orders = [['POuter', 'POther'], ['POuter', 'PInner', 'POther'], ['POther', 'POuter', 'POther'], ['POuter', 'POuter', 'POther', 'PInner'],
+              ['PA', 'PQ'], ['PQ', 'PA', 'PQ'], ['PX', 'PY', 'PZ'], ['PZ', 'PY'], ['PB', 'PQ', 'PA'], ['PY', 'PX', 'PZ', 'PQ'],
               ['MutA', 'MutB'], ['MutB', 'MutA'], ['Rec', 'RecKey'], ['PA', 'MutA', 'PQ', 'MutB'], ['Bad136', 'Leaf', 'Bad1', 'Bad136']]
     for o in orders:
         sess = []
@@ -441,7 +444,7 @@ def c07_sessions(u, groups, rng, tier):
                 sess.append(('(api3 %s)' % n, {'op': 'api3-order', 'type': n}))
         for n in o:
             if n in u.by_name and not u.by_name[n].invalid:
-                v = small_val(u, rng.fork('o' + n), n)
+                v = ValGen(u, rng.fork('o' + n), alternate=True, max_depth=4).val(st(n))     # nested pointers non-nil
                 sess.append(('(rt %s ptr %s)' % (n, val_sx(v)), {'op': 'rt', 'type': n}))
         sessions.append(sess)
     return {'sessions': sessions}
@@ -472,6 +475,20 @@ def c17_sessions(u, groups, rng, tier):
             sess.append(c)
         sessions.append(sess)
         envs.append(r.pick(envs_pool))
+    poison = groups.get('poison', [])
+    for order in [['PQ', 'PA'], ['PA', 'PQ'], ['POuter', 'POther'], ['PX', 'PZ'], ['PZ', 'PY', 'PX']]:
+        sess = []
+        for j, n in enumerate(order):
+            if n in u.by_name:
+                sess.append(('(legacy Pretouch %d %s)' % (j, n), {'op': 'legacy', 'fn': 'Pretouch'}))
+        for n in order:
+            if n in u.by_name:
+                sess.append(('(api3 %s)' % n, {'op': 'api3', 'type': n}))
+                if not u.by_name[n].invalid:
+                    v = ValGen(u, rng.fork('p' + n), alternate=True, max_depth=4).val(st(n))
+                    sess.append(('(rt %s ptr %s)' % (n, val_sx(v)), {'op': 'rt', 'type': n}))
+        sessions.append(sess)
+        envs.append(None)
     return {'sessions': sessions, 'envs': envs}
 
 
